@@ -554,6 +554,9 @@ func NewApp(
 		slashingtypes.ModuleName,
 		govtypes.ModuleName,
 		enttypes.ModuleName,
+		// stream must be initialised before crisis: crisis asserts every registered invariant during its own
+		// InitGenesis, and the stream escrow balance (set by bank) has to match the imported deposits by then
+		streamtypes.ModuleName,
 		crisistypes.ModuleName,
 		ibcexported.ModuleName,
 		genutiltypes.ModuleName,
@@ -569,7 +572,6 @@ func NewApp(
 		enttypes.ModuleName,
 		beacontypes.ModuleName,
 		wrkchaintypes.ModuleName,
-		streamtypes.ModuleName,
 	}
 
 	app.ModuleManager.SetOrderInitGenesis(genesisModuleOrder...)
